@@ -1,5 +1,5 @@
 (* C17 — ordering signals: a waiter runs after, and once per, each production. *)
-From HG Require Import Base Engine Exec EngineProofs Provenance Samples.
+From HG Require Import Base Engine Exec EngineProofs Provenance Samples LoopCount.
 From stdpp Require Import gmap.
 
 (* safety *)
@@ -48,6 +48,28 @@ Theorem C17_runs_again : forall g st n,
   is_blocked r0 n = false -> deferred r1 n = false -> In n (ready_list g st).
 Proof. exact ready_complete. Qed.
 Print Assumptions C17_runs_again.
+
+(* ONCE PER PRODUCTION, over a whole run.  In the loop whose gate waits on the end-of-iteration signal `done` emitted by the body
+   (Samples.loop), for every body function f and predicate P: the waiting gate runs exactly as often as the signal is produced -
+   n productions by n body runs, n gate runs - and the loop keeps iterating until the gate says END (this is C04_loop_exact read
+   for the waiter: cnt 13 = cnt 10). *)
+Theorem C17_waiter_once_per_production : forall (P : Z -> bool) (f : Z -> Z) (exec : node -> state -> dict val -> outcome) (r : runner) (x0 : Z) (n fuel : nat),
+  (forall st x, exec body_node st [(1%positive, VInt x)] = OOk [(1%positive, VInt (f x)); (20%positive, VSentinel)] None) ->
+  (forall st x, exec loop_gate st [(1%positive, VInt x)] = OOk [] (Some (Some (if P x then DOne 10 else DEnd)))) ->
+  (1 <= n)%nat ->
+  (forall j, (1 <= j < n)%nat -> P (Nat.iter j f x0) = true) ->
+  P (Nat.iter n f x0) = false ->
+  (forall j, (j < n)%nat -> Nat.iter (S j) f x0 <> Nat.iter j f x0) ->
+  (2 * n <= fuel)%nat ->
+  exists st log,
+    execute exec r fuel loop [(1%positive, VInt x0)] = (RDone st, log) /\
+    cnt 13 log = cnt 10 log /\ cnt 10 log = n.
+Proof.
+  intros P f exec r x0 n fuel Hb Hg Hn Hc He Hch Hf.
+  destruct (loop_runs_exactly P f exec r x0 n fuel Hb Hg Hn Hc He Hch Hf) as (st & log & Hrun & _ & H10 & H13).
+  exists st, log. split; [exact Hrun|]. split; congruence.
+Qed.
+Print Assumptions C17_waiter_once_per_production.
 
 (* end-to-end: the loop whose gate waits on the end-of-iteration signal keeps iterating *)
 Example C17_loop_keeps_iterating :
